@@ -331,7 +331,7 @@ theorem inv_exec {s0 s : St} {ls : List Label} (h0 : Inv s0) (he : Exec s0 ls s)
   | nil => exact h0
   | snoc _ hs ih => exact inv_step ih hs
 
-theorem inv_reach {v f n b t0 s} (h : Reach v f n b t0 s) : Inv s := by
-  obtain ⟨ls, he⟩ := h; exact inv_exec (inv_init v f n b t0) he
+theorem inv_reach {v g f n b t0 s} (h : Reach v g f n b t0 s) : Inv s := by
+  obtain ⟨ls, he⟩ := h; exact inv_exec (inv_init v g f n b t0) he
 
 end PdshVerif.Dsh.Sig
